@@ -274,3 +274,12 @@ Proof.
            (parsed_dtd mark all Hleg Hadj) (ditem_keys mark all Hkeys) dHref_items fs H).
 Qed.
 End Top.
+
+(* ---- a concrete file for the Example of Properties/C19.v -------------------------------------
+     <BOM><!ENTITY a "b"> / zz  (garbage) <!ENTITY a "c"> / <!ENTITY m "1">
+     reference:  <!ENTITY a "b"> / <!ENTITY m "2">                                   *)
+Definition de2e_ent (k v : list nat) : jblock := JB (BEntity None (A [32]) (A k) (A [32]) 34%N (A v) []).
+Definition de2e_nl : jblock := JB (BBlank (A [10])).
+Definition de2e_file : list jblock :=
+  [de2e_ent [97] [98]; de2e_nl; JG (A [122; 122; 32]); de2e_ent [97] [99]; de2e_nl; de2e_ent [109] [49]].
+Definition de2e_ref : list jblock := [de2e_ent [97] [98]; de2e_nl; de2e_ent [109] [50]].
